@@ -4,6 +4,8 @@ import (
 	"bytes"
 	"encoding/json"
 	"fmt"
+	"os"
+	"os/exec"
 	"reflect"
 	"regexp"
 	"sort"
@@ -336,9 +338,80 @@ var c12Docs = [][]byte{
 	[]byte(`{"type":"Person","id":"https://example.com/~u","preferredUsername":"u","inbox":"https://example.com/~u/inbox"}`),
 }
 
+// c12FreshChild: many goroutines decode independent documents that name languages, types, terms and ids the
+// process has never seen before (whatever the decoders remember between calls is written for the first
+// time, concurrently).  A fatal runtime error (concurrent map writes) cannot be recovered: hence a child.
+func c12FreshChild() {
+	var wg sync.WaitGroup
+	bad := make(chan string, 64)
+	for g := 0; g < 8; g++ {
+		wg.Add(1)
+		go func(g int) {
+			defer wg.Done()
+			for i := 0; i < 300; i++ {
+				tag := fmt.Sprintf("x%dq%d", g, i)
+				doc := fmt.Sprintf(`{"id":"https://example.com/%s","type":"Note","nameMap":{"%s":"hello","%s-ZZ":"salut"},"url":{"type":"Link","href":"https://example.com/l","hrefLang":"%s"},"tag":[{"type":"Mention","name":"@%s"}]}`, tag, tag, tag, tag, tag)
+				it, err := ap.UnmarshalJSON([]byte(doc))
+				if err != nil {
+					bad <- "error: " + err.Error()
+					return
+				}
+				ok := false
+				_ = ap.OnObject(it, func(o *ap.Object) error {
+					ok = len(o.Name) == 2 && (string(o.Name[0].Ref) == tag || string(o.Name[1].Ref) == tag)
+					return nil
+				})
+				if !ok {
+					bad <- "a document decoded concurrently lost its language tags: " + doc
+					return
+				}
+				if b, err := ap.GobEncode(it); err == nil {
+					_, _ = ap.GobDecode(b)
+				}
+			}
+		}(g)
+	}
+	wg.Wait()
+	select {
+	case m := <-bad:
+		fmt.Println(m)
+		os.Exit(3)
+	default:
+	}
+}
+
+func c12RunFresh() string {
+	exe, err := os.Executable()
+	if err != nil {
+		return ""
+	}
+	for round := 0; round < 3; round++ {
+		cmd := exec.Command(exe, "c12fresh")
+		cmd.Env = append(os.Environ(), "GOMAXPROCS=8")
+		out, err := cmd.CombinedOutput()
+		if err != nil {
+			msg := string(out)
+			if i := strings.Index(msg, "\n\n"); i > 0 && i < 400 {
+				msg = msg[:i]
+			}
+			if len(msg) > 400 {
+				msg = msg[:400]
+			}
+			return "decoding independent documents in languages not seen before from 8 goroutines: " + err.Error() + ": " + msg
+		}
+	}
+	return ""
+}
+
 func init() {
 	campaigns["C12"] = func(c *Ctx) {
 		ops := c12Ops()
+		// (0) first-time decodes from several goroutines, in a child process
+		c.Count(map[string]interface{}{"fresh": true}, true)
+		c.Tag("fresh-concurrent-decodes")
+		if v := c12RunFresh(); v != "" {
+			c.Fail("C12/concurrent-decode", v, map[string]interface{}{"fresh": true})
+		}
 		c.Rule = fmt.Sprintf("values generated type-directed over the whole vocabulary (depth <= 2, text with escapes, multi-language values, lists, sub-records), rebuilt so that EVERY slice (item lists, byte strings, language-value lists, IRI lists) has 3 spare slots of capacity planted with sentinels. (1) For each of %d read-only operations (package and method encoders in both codecs, MarshalBinary, ItemsEqual with itself and with another value in both orders, Format with four verbs, all inspectors, DerefItem, On* views that only read, To* conversions, the language-value readers, Contains/Count/IRIs/First): a deep snapshot before and after — every byte of every byte string up to its capacity, every slice header (pointer, len, cap), every element up to capacity, pointer identities — must be identical, and a second call must return the same result. (2) The same operations from 8 goroutines on one shared value, while 2 more decode unrelated documents: every result equals the sequential one and the value is unchanged afterwards; the thorough tier runs this under the Go race detector in a separate -race build.", len(ops))
 		cfg := &GenCfg{MaxDepth: 2, Density: 20, Zones: true, GobZones: true, Nanos: true, ValueNodes: false, Links: true, EmptyTypes: true, Negatives: true, MultiLang: true, RepeatLang: true,
 			NilMembers: true, Force: map[string]bool{"To": true, "Tag": true}, ForcePct: 60}
@@ -381,6 +454,9 @@ func init() {
 		var in map[string]interface{}
 		if err := json.Unmarshal(input, &in); err != nil {
 			return "bad replay input"
+		}
+		if in["fresh"] == true {
+			return c12RunFresh()
 		}
 		it := buildItem(parseTree(in["v"]))
 		plantCapacity(it)
